@@ -358,7 +358,7 @@ PROPS["C13"] = dict(
                "latched result and the handshake function runs at most once (C13_handshake_same_result); the datagram Close touches no mutable state before its wait and no "
                "call is inside afterwards (C13_close_waits, C13_close_interlock). Observed on the real library under the race detector with GOMAXPROCS 1..16, seeds and injected "
                "yields: streams, Handshake results, stuck goroutines, interlock word, race reports - all judged by the Coq predicate.",
-    level_note="NOT modelled / not proved: the Go memory model (that atomics and mutexes give the happens-before edges the handshake-phase exemption relies on), the scheduler "
+    level_note="A call inside a for / range statement is unrolled twice in the trace (LoopCall), so that a critical section taken per iteration is seen as several sections by the whole-write check. F16, F17 and F28 (the three fields that failed the lockset discipline) are fixed in the library: the finding list of the lockset theorem is empty. NOT modelled / not proved: the Go memory model (that atomics and mutexes give the happens-before edges the handshake-phase exemption relies on), the scheduler "
                "(fairness, the busy-wait in dtlcp Close terminating), net / crypto / gmsm internals (their race freedom rests on the detector runs only), context cancellation "
                "in HandshakeContext. Trusted: the translator (that it reports every lock operation, atomic operation and field access of the listed files; linearisation of "
                "branches is exact only because every Lock is unconditional, which the checker enforces; recursion unrolled once; handshake code outside the four files is "
